@@ -37,7 +37,7 @@ def prepare():
 def budgets(tier):
     if tier == 'quick':
         return dict(shards=16, examples=120)
-    return dict(shards=16, examples=2500, deadline_s=3000)
+    return dict(shards=16, examples=5000, deadline_s=3000)
 
 
 def strategy(tier):
